@@ -23,10 +23,12 @@ type Base struct {
 	DupSig []string
 }
 
-// CustomGlobals returns host-defined globals with nested modules: vx{leaf, inner{leaf, deep{leaf2}}, deep{leaf2}}.
+// CustomGlobals returns host-defined globals with nested modules:
+// vx{leaf, inner{leaf, deep{leaf2, deeper{leaf3}}}, deep{leaf2}} - dotted names of 2 to 5 components.
 func CustomGlobals() map[string]any {
 	nop := func(ctx context.Context, args ...object.Object) object.Object { return object.Nil }
-	deepA := object.NewBuiltinsModule("deep_a", map[string]object.Object{"leaf2": object.NewBuiltin("leaf2a", nop)})
+	deeper := object.NewBuiltinsModule("deeper", map[string]object.Object{"leaf3": object.NewBuiltin("leaf3", nop)})
+	deepA := object.NewBuiltinsModule("deep_a", map[string]object.Object{"leaf2": object.NewBuiltin("leaf2a", nop), "deeper": deeper})
 	deepB := object.NewBuiltinsModule("deep_b", map[string]object.Object{"leaf2": object.NewBuiltin("leaf2b", nop)})
 	inner := object.NewBuiltinsModule("inner", map[string]object.Object{"leaf": object.NewBuiltin("leafi", nop), "deep": deepA})
 	vx := object.NewBuiltinsModule("vx", map[string]object.Object{"leaf": object.NewBuiltin("leafx", nop), "inner": inner, "deep": deepB})
